@@ -80,7 +80,7 @@ def _build_base(name):
     A = {
         'k': k, 'acc': acc, 'lm': {int(v): [w for w in G[v] if w >= 0] for v in live},
         'mask': np.array([1 if v in live else 0 for v in range(n)], dtype=int),
-        'mask_bool': np.array([(v in live) or (v % 3 == 0) for v in range(n)], dtype=bool),
+        'mask_bool': np.array([(v in live) or (v in _trimmed_extras(k, live)) for v in range(n)], dtype=bool),
         'bits': np.array(bits, dtype=int), 'table': np.array(U.table_latin(n, 1), dtype=int),
         'strand': strand, 'corrupted': corrupted, 'start': start, 'filter': filt,
         'matrix': np.array([[1 if w in [x for x in G[u] if x >= 0] else 0 for w in range(n)] for u in range(n)], dtype=int),
@@ -90,6 +90,18 @@ def _build_base(name):
         'short_strings': [''.join(p) for n_ in (1, 2) for p in __import__('itertools').product('ACGT', repeat=n_)],
     }
     return A
+
+
+def _trimmed_extras(k, live):
+    """Vertices outside the graph that generation must trim away again (so a bool mask is really worked on)."""
+    L = set(live)
+    out = []
+    for v in range(4 ** k):
+        if v not in L and O.gfp(L | {v}, k, 2) == O.gfp(L, k, 2) and O.gfp(L | {v}, k, 1) == O.gfp(L, k, 1):
+            out.append(v)
+            if len(out) == 2:
+                break
+    return set(out) if out else {v for v in range(4 ** k) if v % 3 == 0}
 
 
 def ops():
@@ -154,6 +166,7 @@ def ops():
     add('coding_graph_t3', lambda d, A, **v: d.connect_coding_graph(A['k'], A['mask'], 3, **v), True)
     add('coding_graph_bool_t1', lambda d, A, **v: d.connect_coding_graph(A['k'], A['mask_bool'], 1, **v), True)
     add('coding_graph_bool_t2', lambda d, A, **v: d.connect_coding_graph(A['k'], A['mask_bool'], 2, **v), True)
+    add('coding_graph_bool_t3', lambda d, A, **v: d.connect_coding_graph(A['k'], A['mask_bool'], 3, **v), True)
     add('valid_graph_bool', lambda d, A, **v: d.connect_valid_graph(A['k'], A['mask_bool'], **v), True)
     add('capacity_1', lambda d, A, **v: d.approximate_capacity(A['acc'], repeats=1, **v), True)
 
@@ -439,7 +452,10 @@ def run(ctx):
         refs = {sname: allrefs[sname] for sname in (a, b, a + '@removed')}
         H = []
         H += [[('op', a, x)] for x in pure]                                                   # depth 1
-        H += [[('op', a, x), ('op', a, y)] for x in pure for y in pure]                       # depth 2, exhaustive
+        if a == 'homo4':     # order 4: depth 2 over core operations x all operations (both orders)
+            H += [[('op', a, x), ('op', a, y)] for x in core_ops for y in pure] + [[('op', a, y), ('op', a, x)] for x in core_ops for y in pure if y not in core_ops]
+        else:
+            H += [[('op', a, x), ('op', a, y)] for x in pure for y in pure]                   # depth 2, exhaustive
         co = core_ops[:6] if ctx.quick else core_ops
         H += [[('op', a, x), ('op', a, y), ('op', a, z)] for x in co for y in co for z in co]  # depth 3, core ops
         H += [[('op', a, x), ('scribble',), ('op', a, x)] for x in pure]                      # caller overwrites its result
@@ -452,7 +468,7 @@ def run(ctx):
         ctx.pmap(_w, [(refs, c) for c in core.chunks_of(H, 40)])
         ctx.pmap(_w_verbose, [(a, refs, c) for c in core.chunks_of(vnames, 4)])
     ctx.bounds = {'operations': len(names), 'verbose_operations': len(vnames), 'argument_sets': [x for p in PAIRS for x in p],
-                  'histories': nh, 'history_kinds': 'depth 1; depth 2 exhaustive; depth 3 over %d core operations; X, caller overwrites result, X; '
+                  'histories': nh, 'history_kinds': 'depth 1; depth 2 exhaustive (order 4: core operations x all operations); depth 3 over %d core operations; X, caller overwrites result, X; '
                   'X, in-place remove_nasty_arc on the shared graph, X (reference: fresh process on the modified arguments); X on set a, X on '
                   'set b of the same order, X on set a' % (6 if ctx.quick else len(core_ops))}
     ctx.rule = ('explicit-state search over call histories on shared argument sets: after every call the result must equal the result of the '
